@@ -13,6 +13,8 @@ def parseAct : List String → Option Act
   | ["credit", fx, other, to] => do some (.credit (← nat? fx) (← nat? other) (← nat? to))
   | ["setc", url, r, p, q] => do some (.setCustom url.toList (some ⟨← nat? r, ← nat? p, ← nat? q⟩))
   | ["delc", url] => some (.setCustom url.toList none)
+  | ["govdep", pid, amt] => do some (.govDeposit (← nat? pid) (← nat? amt))
+  | ["govsub", initial, exp] => do some (.govSubmit (← nat? initial) (← bool? exp))
   | _ => none
 
 def parseMsg (w : String) : Option Msg :=
